@@ -442,6 +442,8 @@ pub struct GlobalState {
     pub gc_list: StdMutex<Vec<Arc<ContextProps>>>,
     pub access_log: Option<AccessLog>,
     pub default_timeout: u64,
+    // idle timeout for UDP associations created where only the context is at hand (timeouts.udp)
+    pub default_udp_timeout: u64,
 }
 
 impl GlobalState {
@@ -682,6 +684,10 @@ impl Context {
 
     pub fn idle_timeout(&self) -> Duration {
         Duration::from_secs(self.props.idle_timeout)
+    }
+
+    pub fn default_udp_timeout(&self) -> u64 {
+        self.state.default_udp_timeout
     }
 
     pub fn set_idle_timeout(&mut self, timeout: u64) -> &mut Self {
